@@ -33,6 +33,7 @@ def run(ctx, repo):
     ctx.call(R6B.r_instance_writes_class, repo, ['reader', 'scanner', 'parser', 'composer', 'constructor', 'resolver', 'emitter', 'serializer', 'representer'])
     ctx.call(R6B.r_no_module_state, repo)
     ctx.call(R6B.r_option_immutable, repo, ['emitter.Emitter', 'serializer.Serializer', 'representer.BaseRepresenter'])
+    ctx.call(R6B.r_no_mutable_default, repo)
 
 
 if __name__ == '__main__':
